@@ -1,0 +1,45 @@
+//go:build verif
+
+// Contracts for the verification machinery in /verif (comment-only; compiled only with -tags verif).
+package orderedmap
+
+// ---- C51: the lookups of the ordered map answer from its key index (the Go map `pairs`, modelled as value array
+// + presence array + length), once for all instantiations. A symbolic Go map is non-nil in the model, so the early
+// return of the zero value (`pairs == nil`) is not explored. The insertion-order list and the operations that change
+// the map are not covered.
+//
+// omhas is the abstract view "key is present": inside this package (the receiver is a modelled object) it means the
+// definition below; for clients that only hold a reference (persistent.OrderedSet) it is an uninterpreted function of
+// the reference and the key.
+//@ ufun omhas(Int, Int) Bool
+//@ absdef omhas(m, k) = m.pairs != nil && mhas(m.pairs, k)
+//@ ufun omnonempty(Int) Bool
+
+// pairs are handed out as references (possibly nil)
+//@ heapobj Pair
+
+//@ func (*OrderedMap[K, V]).Contains
+//@   props C51
+//@   requires om != nil
+//@   nofail
+//@   ensures[C51] iff(result, omhas(om, key))
+
+//@ func (*OrderedMap[K, V]).GetPair
+//@   props C51
+//@   requires om != nil
+//@   nofail
+//@   ensures[C51] !omhas(om, key) ==> result == nil
+//@   ensures[C51] omhas(om, key) ==> result == mget(om.pairs, key)
+
+//@ func (*OrderedMap[K, V]).Len
+//@   props C51
+//@   requires om != nil
+//@   nofail
+//@   ensures[C51] result == ite(om.pairs == nil, 0, mlen(om.pairs))
+
+// Oldest: assumed (the insertion-order list is not modelled) - non-nil exactly for a map that has an entry
+//@ func (*OrderedMap[K, V]).Oldest
+//@   assumed
+//@   requires om != nil
+//@   nofail
+//@   ensures iff(result != nil, omnonempty(om))
